@@ -22,7 +22,8 @@ CHECKS = {
                 "Invoke/Return and TLC searches a linearisation under CacheLin.tla; (c) the same stress under the Go race "
                 "detector, race reports/crashes being events no spec action accepts unless an open finding explains them.",
         "note": "exhaustive only inside the MC bounds; forced schedules sample the interleavings of <=3 threads x 2 operations; "
-                "stress schedules are whatever the Go scheduler produces; part oversize hints (MaxPartSizeBytes) and persistor I/O "
+                "stress schedules are whatever the Go scheduler produces; oversized parts (MaxPartSizeBytes, hints) are covered by the "
+                "model, the forced schedules and the exhaustive sequential programs but not by the stress leg; persistor I/O "
                 "errors are not modelled; the inner part store is the harness's atomic map; TLC, Go race detector trusted",
         "technique": "TLA+ step-grain model, TLC model checking, TLC-generated forced schedules (gates), TLC trace validation, "
                      "TLC linearisation search, Go race detector",
@@ -141,6 +142,28 @@ def spec_agreement(ctx, n):
     if bad:
         raise vlib.Infra("Cache.tla (intended design) and CacheLin.tla disagree: model walks %s are not linearisable; see %s" % (bad[:5], f))
     return len(walks), len(minis)
+
+
+def sequential_programs(ctx, nops, devs):
+    """ALL sequential programs of <= nops part-store operations on one id (PutPart of a cacheable / an oversized value
+    with and without a transaction, GetPart, DeletePart) from both initial states and for both persistors:
+    exhaustive BFS of CacheGen with a single thread"""
+    cfg = prep_cfg(ctx, "Cache.Gen.cfg", "gen-seq.cfg", {"Deviations": devs, "Threads": '{"t1"}', "Keys": '{"k1"}',
+                                                         "Levels": '{"part"}', "LimitKind": '"keys"', "LimitN": "2",
+                                                         "MaxOps": str(nops)})
+    r = ctx.tlc("CacheGen", cfg, workers=1, timeout=900, count_mc=False)
+    out, seen = [], set()
+    for p in r.printed:
+        if isinstance(p, dict) and "sched" in p:
+            p.pop("hist", None)
+            p["tag"] = ""
+            key = json.dumps(p, sort_keys=True)
+            if key not in seen:
+                seen.add(key)
+                out.append(p)
+    if r.outcome != "ok" or len(out) < 100:
+        raise vlib.Infra("sequential program enumeration: %s, %d programs\n%s" % (r.outcome, len(out), r.output[-1500:]))
+    return out
 
 
 # ------------------------------------------------------------------ forced-schedule TV
@@ -364,28 +387,35 @@ def run(ctx):
     # ---------------------------------------------------------------- 1. stage A (parallel): MC of the intended design,
     # witness searches and random walks on the model of the code, builds
     mcw = ctx.pick(2, 4)
-    mcs = [("cache-keys1", {"Level": '"cache"'}), ("part-keys1", {"Level": '"part"'}),
+    mcs = [("cache-keys1", {"Level": '"cache"'}), ("part-keys1", {"Level": '"part"', "PartVals": '{"p"}'}),
+           ("part-oversize-1key", {"Level": '"part"', "Keys": "{k1}", "PartVals": '{"p", "b"}'}),
            ("cache-size1", {"Level": '"cache"', "Threads": "{t1, t2}", "LimitKind": '"size"', "LimitN": "1", "Persistors": '{"mem", "fs"}'})]
     if not ctx.quick():
         mcs += [("cache-size3", {"Level": '"cache"', "LimitKind": '"size"', "LimitN": "3", "Persistors": '{"mem", "fs"}'}),
-                ("part-size3", {"Level": '"part"', "LimitKind": '"size"', "LimitN": "3"}),
+                ("part-size3", {"Level": '"part"', "LimitKind": '"size"', "LimitN": "3", "PartVals": '{"p"}'}),
+                ("part-oversize-keys1", {"Level": '"part"', "PartVals": '{"p", "b"}'}),
                 ("part-2x2", {"Level": '"part"', "Threads": "{t1, t2}", "MaxOps": "2"}),
                 ("cache-2x2", {"Level": '"cache"', "Threads": "{t1, t2}", "MaxOps": "2"}),
-                ("part-keys2", {"Level": '"part"', "LimitN": "2"})]
+                ("part-keys2", {"Level": '"part"', "LimitN": "2", "PartVals": '{"p"}'})]
     mc_f = []
+    if os.environ.get("VERIF_SKIP_MC"):      # debugging aid only (seeded-change / mutation runs)
+        mcs = []
     for name, sub in mcs:
         cfg = prep_cfg(ctx, "Cache.MC.cfg", "mc-%s.cfg" % name, sub)
         mc_f.append((cfg, pool.submit(ctx.tlc, "Cache", cfg, workers=mcw, timeout=3000, count_mc=False)))
     wit_f = [pool.submit(run_witness, ctx, j) for j in witness_jobs(ctx, open_tags)]
     rnd_f = pool.submit(random_schedules, ctx, ctx.pick(120, 1000), devs)
+    seq_f = pool.submit(sequential_programs, ctx, ctx.pick(3, 4), devs)
     agr_f = pool.submit(spec_agreement, ctx, ctx.pick(60, 400))
     drv_f = pool.submit(ctx.gobuild, "cache")
     drv = drv_f.result()
     drv_race_f = pool.submit(ctx.gobuild, "cache", True)   # after the plain build (shares the scratch harness copy)
     wit = [f.result() for f in wit_f]
     rnd = rnd_f.result()
+    seq = seq_f.result()
+    ctx.log("schedules: %d witnesses, %d random walks, %d sequential part-store programs" % (len(wit), len(rnd), len(seq)))
     rounds = []
-    for w in wit + rnd:
+    for w in wit + rnd + seq:
         w = dict(w)
         w["id"] = len(rounds) + 1
         rounds.append(w)
@@ -532,11 +562,13 @@ def run(ctx):
             cov[key] = cov.get(key, 0) + 1
     need = ["cset@s.enter", "cset@evict", "cset@s.r1", "cset@s.r2", "cset@s.exit", "cset@done:ok", "csets@s.exit", "csets@evict",
             "cget@g.r1", "cget@g.r2", "cget@done:hit", "cget@done:miss", "crem@done:ok", "pput@commit", "pput@s.enter",
-            "pget@inner", "pget@s.enter", "pget@s.exit", "pget@g.r1", "pget@done:hit", "pget@done:notfound", "pdel@commit", "pdel@done:ok"]
+            "pget@inner", "pget@s.enter", "pget@s.exit", "pget@g.r1", "pget@done:hit", "pget@done:notfound", "pdel@commit", "pdel@done:ok",
+            "pputi@s.enter", "pputi@done:ok", "pget@evict"]
     missing = [k for k in need if cov.get(k, 0) == 0]
     if missing:
         raise vlib.Infra("spec steps never exercised on the real code: %s" % missing)
-    ctx.extra["forced"] = dict(stats, rounds_explained=len(accepted), step_coverage=cov, witnesses=[w["witness"] for w in wit])
+    ctx.extra["forced"] = dict(stats, rounds_explained=len(accepted), step_coverage=cov, witnesses=[w["witness"] for w in wit],
+                               random_walks=len(rnd), sequential_programs=len(seq))
     nw, nm = agr_f.result()
     ctx.log("spec agreement: %d walks of the intended design (%d per-key histories) linearisable under CacheLin.tla" % (nw, nm))
     ctx.extra["spec_agreement"] = {"walks": nw, "per_key_histories": nm}
@@ -588,6 +620,7 @@ def run(ctx):
         "a DeletePart/PutPart call includes the commit that runs its after-commit hook (fake database.Tx)",
         "LFU order among duplicate heap entries of one key is left nondeterministic in the model",
     ]
-    return ("schedules = TLC -simulate walks of Cache.tla (3 threads x <=2 ops, both levels, both persistors, 4 limit configs) plus the "
-            "shortest TLC counterexample per open deviation, each forced step by step on the real cache; non-trivial = some "
+    return ("schedules = TLC -simulate walks of Cache.tla (3 threads x <=2 ops, both levels, both persistors, 4 limit configs), the "
+            "shortest TLC counterexample per open deviation, and ALL sequential programs of <=3 (thorough 4) part-store calls on one id "
+            "(cacheable/oversized PutPart with/without tx, GetPart, DeletePart), each forced step by step on the real cache; non-trivial = some "
             "operation interleaved with another thread's step; stress = 8 goroutines x random ops per configuration")
